@@ -508,3 +508,4 @@ MANIFEST = {
     "value/error alphabets; array-valued measurements are outside.",
     "ref": "DESIGN.md §4 C19",
 }
+MANIFEST["text"] += ' Bare uncertain numbers (ufloat, nominal 0 and non-0) against 6 operand kinds x 6 operators x both orders: refused against dimensional operands, propagated against dimensionless ones.'
